@@ -16,12 +16,15 @@ def parseMErr (s : String) : Option MErr :=
 def showMErr : MErr → String
   | .nil => "nil" | .plain n => s!"e{n}" | .closed => "closed" | .wrappedClosed => "wclosed" | .block n => s!"b{n}"
 
+/-- a message token: `nil` (a nil slice) and `-` (an empty one) are the same message -/
+def ofHexMsg (m : String) : Option Bytes := if m == "nil" then some [] else ofHex m
+
 def parseTransfers (s : String) : Option (List Transfer) :=
   if s == "-" then some [] else
   (s.splitOn ";").mapM fun t =>
     match t.splitOn ":" with
     | [m, tp, e] => do
-      let m ← ofHex m
+      let m ← ofHexMsg m
       let tp ← ofHex tp
       let e ← parseMErr e
       pure ⟨m, tp, e⟩
@@ -50,7 +53,7 @@ def mocksStep (s : MSt) (f : List String) : MSt × List String :=
     | some w => ({ kind := .pub w }, [])
     | none => (s, ["bad-op pubmock"])
   | ["pcall", quit, m, t] =>
-    match s.kind, ofHex m, ofHex t with
+    match s.kind, ofHexMsg m, ofHex t with
     | .pub w, some m, some t =>
       let (st, r) := publishMockCall w s.st (quit == "closed") m t
       ({ s with st := st }, [s!"pcall {match r with | none => "canceled" | some e => showMErr e} fails={st.fails}"])
